@@ -83,7 +83,7 @@ func TestC20Enum(t *testing.T) {
 		}
 		failBuild := rapid.SampledFrom([]int{0, 0, 0, 1, 2}).Draw(rt, "failBuild")
 		// what a failing cloud call answers: an error (with a code), or an answer of unexpected shape
-		code := rapid.SampledFrom([]string{"", "", "Throttling", "ValidationError", "shape:no-reservation", "shape:empty-reservation"}).Draw(rt, "code")
+		code := rapid.SampledFrom([]string{"", "", "Throttling", "ValidationError", "InvalidInstanceID.NotFound", "shape:no-reservation", "shape:empty-reservation"}).Draw(rt, "code")
 		log := pw.Log[:len(pw.Log)-1]
 		for _, plan := range plans {
 			rapid.SyncTest(rt, func(rt *rapid.T) {
